@@ -8,8 +8,9 @@ open Launcher
   case <none|mem|pickle> <default|custom|split>
         new launcher, empty persister.  `custom`: `ProcessLauncher(loader=L)` and `InMemoryPersister(loader=L)`;
         `split`: `ProcessLauncher()` (no loader) with `InMemoryPersister(loader=L)`.            -> `case`
-  ckpt <Cls> <n|none> <j> <tag|none>
-        (harness-made checkpoint) construct `Cls`, perform `j` `Process.step()` iterations, save under `tag`
+  ckpt <Cls> <n|none> (<j> <tag|none>)+
+        (harness-made checkpoints) construct ONE `Cls`; for each pair step it until `j` `Process.step()` iterations have
+        been performed in total, then save it under `tag`
                                                                                                    -> `ckpt #k keys=…`
   t <type|~> <A|N|X> <ident|~> <n|none|~> <persist 0|1|~> <nowait 0|1|~> <pid #k|?|~> <tag name|none|~>
         a task body; `~` = key absent; A/N/X = the `args` entry is a dict / absent / not a dict.
@@ -42,8 +43,10 @@ def argN (init : CtorArgs) : Int :=
 def runtime : Runtime where
   construct cls _ := if cls = "Bad" then .error "RuntimeError" else .ok ()
   complete p :=
-    if p.cls = "Raise" then .raised "ValueError"
-    else if p.cls = "Alt" then .outputs [("alt", argN p.init)]
+    -- the outputs are emitted by `run` (iteration 1): by the class that ran it, before or after the checkpoint
+    let emitter := if p.pos ≥ 2 then p.origin else p.cls
+    if emitter = "Raise" then .raised "ValueError"
+    else if emitter = "Alt" then .outputs [("alt", argN p.init)]
     else .outputs [("v", argN p.init)]
 
 def stripPrefix (pre s : String) : Option String :=
@@ -147,6 +150,23 @@ def pConfig : List String → Option Config
     some { persister := pers, loader := lk.1 }
   | _ => none
 
+/-- `(j tag)+` -/
+def pPairs : List String → Option (List (Nat × Tag))
+  | [] => some []
+  | j :: tag :: r => do
+    let jn ← j.toNat?
+    let rest ← pPairs r
+    some ((jn, if tag = "none" then none else some tag) :: rest)
+  | _ => none
+
+/-- the harness steps ONE process further and further and saves it under each tag: the position never decreases and
+stops at the end of the program -/
+def saveAll (cfg : Config) (pid : Pid) (cls : ClassId) (init : CtorArgs) : List (Nat × Tag) → Nat → Store → Store
+  | [], _, s => s
+  | (j, tg) :: r, done, s =>
+    let pos := min (max done j) (iterations cls).length
+    saveAll cfg pid cls init r pos (s.put (pid, tg) (bundle loaders cfg.saveLoader { pid := pid, cls := cls, origin := cls, init := init, pos := pos }))
+
 structure Sess where
   cfg : Config := { persister := none, loader := none }
   st : State := { pers := [], next := 0 }
@@ -158,14 +178,13 @@ def handle (ss : Sess) (line : String) : Sess × String :=
     match pConfig rest with
     | some cfg => ({ cfg := cfg, st := { pers := [], next := 0 } }, "case")
     | none => (ss, "bad")
-  | ["ckpt", cls, n, j, tag] =>
-    match pInit n, j.toNat? with
-    | some init, some j =>
-      if !classes.contains cls || cls = "Bad" then (ss, "bad") else
-      let p : Proc := { pid := ss.st.next, cls := cls, init := ctorArgs init, pos := min j (iterations cls).length }
-      let tg : Tag := if tag = "none" then none else some tag
-      let pers := if ss.cfg.persister.isSome then ss.st.pers.put (p.pid, tg) (bundle loaders ss.cfg.saveLoader p) else ss.st.pers
-      ({ ss with st := { pers := pers, next := ss.st.next + 1 } }, s!"ckpt #{p.pid} keys={showKeys pers}")
+  | "ckpt" :: cls :: n :: pairs =>
+    match pInit n, pPairs pairs with
+    | some init, some ps =>
+      if !classes.contains cls || cls = "Bad" || ps.isEmpty then (ss, "bad") else
+      let pid := ss.st.next
+      let pers := if ss.cfg.persister.isSome then saveAll ss.cfg pid cls (ctorArgs init) ps 0 ss.st.pers else ss.st.pers
+      ({ ss with st := { pers := pers, next := pid + 1 } }, s!"ckpt #{pid} keys={showKeys pers}")
     | _, _ => (ss, "bad")
   | "t" :: rest =>
     match pBody rest with
